@@ -842,6 +842,34 @@ fn vp_native_redirect_chains_body() {
         let asked: Vec<String> = seen.iter().map(|x| format!("http://{}{}", x.host.clone().unwrap_or_default(), x.first_line.split(' ').nth(1).unwrap_or(""))).collect();
         assert_eq!(asked, want, "the URL each hop asked for (Host field + request target) against the resolved Locations");
     }
+    // the body of a redirecting response is of no interest to the chain: whatever is wrong with it - shorter than its Content-Length,
+    // an unterminated chunked body, a coding that does not decode, nothing but a declared length - the Location is followed
+    {
+        let blog = Arc::new(Mutex::new(Vec::new()));
+        let bport = serve_early(blog.clone(), |line: &str, _p: u16| -> Vec<u8> {
+            let path = line.split(' ').nth(1).unwrap_or("");
+            let head = |status: u16, extra: &str| format!("HTTP/1.1 {} X\r\nLocation: /rb/end?from={}\r\nConnection: close\r\n{}\r\n", status, &path[4..], extra);
+            match path {
+                "/rb/short" => { let mut w = head(302, "Content-Length: 50\r\n").into_bytes(); w.extend_from_slice(b"short"); w }
+                "/rb/none" => head(301, "Content-Length: 1000\r\n").into_bytes(),
+                "/rb/chunked" => { let mut w = head(307, "Transfer-Encoding: chunked\r\n").into_bytes(); w.extend_from_slice(b"5\r\nhello\r\n"); w }
+                "/rb/badchunk" => { let mut w = head(308, "Transfer-Encoding: chunked\r\n").into_bytes(); w.extend_from_slice(b"zz\r\nhello\r\n0\r\n\r\n"); w }
+                "/rb/gzip" => { let mut w = head(303, "Content-Encoding: gzip\r\nContent-Length: 4\r\n").into_bytes(); w.extend_from_slice(b"nope"); w }
+                "/rb/gzip-empty" => head(302, "Content-Encoding: gzip\r\nContent-Length: 0\r\n").into_bytes(),
+                "/rb/difflen" => { let mut w = head(302, "Content-Length: 3\r\nContent-Length: 3\r\n").into_bytes(); w.extend_from_slice(b"abcdef"); w }
+                p if p.starts_with("/rb/end") => resp(200, None, "end"),
+                _ => resp(404, None, "nf"),
+            }
+        });
+        for kind in ["short", "none", "chunked", "badchunk", "gzip", "gzip-empty", "difflen"] {
+            blog.lock().unwrap().clear();
+            let r = s.get(format!("http://127.0.0.1:{}/rb/{}", bport, kind)).send(); cases += 1; crate::verif_native_watchdog::progress();
+            let seen: Vec<String> = blog.lock().unwrap().iter().map(|x| x.first_line.clone()).collect();
+            let r = r.unwrap_or_else(|e| panic!("a redirect whose own body is broken ({}) was not followed: {} (requests seen: {:?})", kind, e, seen));
+            assert_eq!((r.status().as_u16(), r.url().path(), r.url().query()), (200, "/rb/end", Some(&format!("from={}", kind)[..])), "redirect with a broken body ({})", kind);
+            assert_eq!(seen.len(), 2, "redirect with a broken body ({}): requests {:?}", kind, seen);
+        }
+    }
     // a Location whose path and query carry raw UTF-8 octets (not percent-encoded): the next hop asks for exactly those octets,
     // percent-encoded one by one, and the response reports that URL
     {
